@@ -11,7 +11,7 @@ m=json.load(open(sys.argv[1])); name=sys.argv[2]
 b=m.get('breaks')
 if isinstance(b,list): print(' '.join(x for x in b if re.match(r'^C\d\d$',x)))
 else:
-    table={'unfix-D1':'C01 C02 C14 C10','unfix-D2':'C03','unfix-D3':'C05','unfix-D4':'C17','unfix-D5':'C13','unfix-D6':'C12','unfix-D7':'C07','unfix-D8':'C08','unfix-D9':'C06','unfix-D10':'C15','unfix-D11':'C18','unfix-D12':'C01','unfix-D13':'C10','unfix-D14':'C17','unfix-D15':'C12'}
+    table={'unfix-D1':'C01 C02 C14 C10','unfix-D2':'C03','unfix-D3':'C05','unfix-D4':'C17','unfix-D5':'C13','unfix-D6':'C12','unfix-D7':'C07','unfix-D8':'C08','unfix-D9':'C06','unfix-D10':'C15','unfix-D11':'C18','unfix-D12':'C01','unfix-D13':'C10','unfix-D14':'C17','unfix-D15':'C12','unfix-D16':'C01'}
     print(table.get(name,''))
 PY
 )
